@@ -350,10 +350,48 @@ func TestBoundedC10(t *testing.T) {
 			}
 		}
 	}
+	// Root references are counted (two blocks with an unchanged state root hold the same root twice): a root that was
+	// referenced r times and released fewer than r times must still open from the memory cache with all its content;
+	// released r times it may be collected.
+	for refs := 1; refs <= 3; refs++ {
+		for drops := 0; drops < refs; drops++ {
+			count++
+			db := NewDatabase(dbm.NewMemDB())
+			tr, _ := New(common.EmptyHash, db)
+			const n = 40
+			for i := 0; i < n; i++ {
+				tr.TryUpdate([]byte(fmt.Sprintf("ref-key-%d", i)), []byte(fmt.Sprintf("ref-value-%d-%s", i, "padding-padding-padding-padding")))
+			}
+			root, err := tr.Commit(nil)
+			if err != nil {
+				t.Fatal(err)
+			}
+			for r := 0; r < refs; r++ {
+				db.Reference(root, common.EmptyHash)
+			}
+			for d := 0; d < drops; d++ {
+				db.Dereference(root)
+			}
+			re, err := New(root, db)
+			bad := 0
+			if err != nil {
+				bad = n
+			} else {
+				for i := 0; i < n; i++ {
+					if got, err := re.TryGet([]byte(fmt.Sprintf("ref-key-%d", i))); err != nil || !bytes.HasPrefix(got, []byte(fmt.Sprintf("ref-value-%d-", i))) {
+						bad++
+					}
+				}
+			}
+			if bad > 0 {
+				fail("a root referenced %d times and released %d times: %d of %d keys are unreadable from the node cache (%v)", refs, drops, bad, n, err)
+			}
+		}
+	}
 	if knownPrefixOrder > 0 {
 		fmt.Printf("KNOWN-FINDING: property=C10 the trie iterator yields a key that is a strict prefix of other stored keys after them, not in key order (%d occurrences in this run)\n", knownPrefixOrder)
 	}
-	fmt.Printf("BOUNDED-CASES: %d histories (key pool of %d, %d keys per history, all permutations, deletes/re-inserts/overwrites, commit+reopen in the middle, small and large values, plain and secure; copy independence), %d failures\n", count, len(bPool), size, nfail)
+	fmt.Printf("BOUNDED-CASES: %d histories (key pool of %d, %d keys per history, all permutations, deletes/re-inserts/overwrites, commit+reopen in the middle, small and large values, plain and secure; copy independence; counted root references), %d failures\n", count, len(bPool), size, nfail)
 	if nfail > 0 {
 		t.Fatalf("%d failures", nfail)
 	}
